@@ -282,3 +282,34 @@ func BadJ5Run(first, n uint16, visit func(uint16)) {
 		visit(seq)
 	}
 }
+
+// ---- V1 -----------------------------------------------------------------------------------------------------------------
+
+type v1mask struct{ bits [4]uint64 }
+
+func (m *v1mask) Reset() {
+	for i := range m.bits {
+		m.bits[i] = 0
+	}
+}
+
+type v1cover struct{ masks [8]v1mask }
+
+// GoodV1Reset clears the masks in place; GoodV1Copy works on a copy and hands the copy back.
+func (c *v1cover) GoodV1Reset() {
+	for i := range c.masks {
+		c.masks[i].Reset()
+	}
+}
+
+func GoodV1Copy(c v1cover) v1cover {
+	c.masks[0].Reset()
+	return c
+}
+
+// BadV1Reset clears the loop's copy of each mask.
+func (c *v1cover) BadV1Reset() {
+	for _, m := range c.masks {
+		m.Reset()
+	}
+}
